@@ -70,6 +70,31 @@ pub fn corpus(r: &mut Rng, random_extra: usize) -> Vec<String> {
     for s in ["[]", "42", "\"error\"", "{\"error\"", "{\"error\":}", "nul", "{\"error\":\"t.err.Bad\",}", "[{\"error\":\"t.err.NotFound\"}]"] {
         v.push(s.to_string());
     }
+    // other spellings of the member names: blanks between the name and the colon, escapes inside the name
+    // (it is the same member whatever its spelling; a text search for `"error":` does not find these)
+    let error_keys = ["\"error\" :", "\"error\"\t:", "\"error\"\n : ", "\"\\u0065rror\":", "\"err\\u006fr\" :", "\"e\\u0072\\u0072or\":"];
+    let param_keys = ["\"parameters\":", "\"parameters\" :", "\"p\\u0061rameters\":"];
+    for (ki, k) in error_keys.iter().enumerate() {
+        for (ni, n) in names.iter().enumerate() {
+            for (pi, p) in params.iter().enumerate() {
+                if (ki + ni + pi) % 4 != 0 {
+                    continue;
+                }
+                let pk = param_keys[(ki + pi) % param_keys.len()];
+                let mut members: Vec<String> = vec![format!("{k}{n}")];
+                if let Some(p) = p {
+                    members.push(format!("{pk}{p}"));
+                }
+                if (ni + pi) % 5 == 0 {
+                    members.push("\"continues\" : true".into());
+                }
+                if (ki + pi) % 2 == 0 {
+                    members.reverse();
+                }
+                v.push(format!("{{{}}}", members.join(",")));
+            }
+        }
+    }
     // duplicates of members (serde_json refuses duplicate fields for derived structs)
     v.push("{\"error\":\"t.err.NotFound\",\"error\":\"t.err.Busy\"}".into());
     v.push("{\"parameters\":{\"i\":1,\"pad\":\"p\"},\"error\":\"io.systemd.System\",\"parameters\":{}}".into());
@@ -150,6 +175,47 @@ macro_rules! run_target {
             let mut conn = Connection::new(Sock(wire.clone()));
             let actual = block_on(<$t>::call_method(&mut conn));
             one::<$t>(f, <$t>::observe, <$t>::arm_payloads, "call_method", actual, $stats);
+        }
+        // entry point 3: receive_reply behind a reply that said `continues: true` on the same connection (how a
+        // service ends a `more` exchange); what a frame is reported as does not depend on what came before it
+        let prelude = [
+            "{\"parameters\":{\"i\":1,\"pad\":\"p\"},\"continues\":true}",
+            "{\"parameters\":{\"s\":\"b\",\"i\":2},\"continues\":true}",
+            "{\"continues\":true}",
+            "{\"parameters\":null,\"continues\":true}",
+        ]
+        .iter()
+        .find(|c| {
+            let wire = new_wire(0);
+            wire.borrow_mut().log_reads = false;
+            let mut b = c.as_bytes().to_vec();
+            b.push(0);
+            wire.borrow_mut().inb.push_back(Some(b));
+            wire.borrow_mut().closed = true;
+            let mut conn = Connection::new(Sock(wire.clone()));
+            block_on(<$t as Target>::recv(&mut conn)).cls == "success"
+        });
+        if let Some(prelude) = prelude {
+            for (fi, f) in $frames.enumerate() {
+                let wire = new_wire(0);
+                wire.borrow_mut().log_reads = false;
+                let mut first = prelude.as_bytes().to_vec();
+                first.push(0);
+                let mut second = f.as_bytes().to_vec();
+                second.push(0);
+                if fi % 2 == 0 {
+                    first.extend_from_slice(&second);
+                    wire.borrow_mut().inb.push_back(Some(first));
+                } else {
+                    wire.borrow_mut().inb.push_back(Some(first));
+                    wire.borrow_mut().inb.push_back(Some(second));
+                }
+                wire.borrow_mut().closed = true;
+                let mut conn = Connection::new(Sock(wire.clone()));
+                let _ = block_on(<$t as Target>::recv(&mut conn));
+                let actual = block_on(<$t as Target>::recv(&mut conn));
+                one::<$t>(f, <$t>::observe, <$t>::arm_payloads, "receive_reply_after_continues", actual, $stats);
+            }
         }
     }};
 }
